@@ -10,6 +10,7 @@ package main
 
 import (
 	"encoding/json"
+	"flag"
 	"fmt"
 	"math"
 	"strconv"
@@ -29,6 +30,9 @@ func fz(f float64) string { return strconv.FormatFloat(f, 'f', -1, 64) }
 // orientation code); X/Y of every OUTPUT are divided by 2^unscale again (exact) before they are
 // printed, so the observations must equal those of the lattice case itself.
 var unscale int
+
+// -scaleexp k (probing aid): every ordinary lattice case is run scaled by 2^k, without translation.
+var forceScale = flag.Int("scaleexp", 0, "force the exponent of class scaled for every lattice case (0: random)")
 
 func fzxy(f float64) string { return fz(math.Ldexp(f, -unscale)) }
 
@@ -666,7 +670,10 @@ func main() {
 				kind = lib.Kind(r.Intn(7))
 			}
 			class = shape
-			if i%6 == 4 {
+			if *forceScale != 0 {
+				class = "scaled"
+				scaleExp = *forceScale
+			} else if i%6 == 4 {
 				// the same kind of lattice case, run at another scale: 2^-60..2^-10 or 2^1..2^40,
 				// half of them first translated by a multiple of 2^10 (up to 2^20)
 				class = "scaled"
